@@ -4640,6 +4640,7 @@ def Epi_Prob_cts_time(Pk, tau, gamma, umin=0, umax = 10, ucount = 1001,
     '''
     psi = get_PGF(Pk)
     psiPrime = get_PGFPrime(Pk)
+    kave = psiPrime(1.)
 
     us = np.linspace(umin, umax, ucount) 
     alpha = np.exp(-tau*us/gamma)  #initial guess for alpha(u)
@@ -4679,6 +4680,7 @@ def Epi_Prob_non_Markovian(Pk, Pxidxi, po, number_its = 100):
     ks = np.arange(len(Pk))
     psi = get_PGF(Pk)
     psiPrime = get_PGFPrime(Pk)
+    kave = psiPrime(1.)
     
     xis = Pxidxi.keys()
     alpha = {xi: 1-po(xi) for xi in xis}
